@@ -113,11 +113,11 @@ func nbpHandler6(req, resp dhcpv6.DHCPv6) (dhcpv6.DHCPv6, bool) {
 	for _, code := range decap.Options.RequestedOptions() {
 		if code == dhcpv6.OptionBootfileURL {
 			// bootfile URL is requested
-			resp.AddOption(opt59)
+			resp.UpdateOption(opt59)
 		} else if code == dhcpv6.OptionBootfileParam {
 			// optionally add opt60, bootfile params, if requested
 			if opt60 != nil {
-				resp.AddOption(opt60)
+				resp.UpdateOption(opt60)
 			}
 		}
 	}
